@@ -178,22 +178,14 @@ func runReplay(root string, rule replayRule, groups []string, inst ReplayInstanc
 	for k, v := range params {
 		body = strings.ReplaceAll(body, "{{"+k+"}}", v)
 	}
-	if strings.Contains(body, "{{") {
-		// a parameter the model did not provide: use the template's defaults "{{name|default}}"
-		re := regexp.MustCompile(`\{\{[A-Za-z0-9_]+\|([^}]*)\}\}`)
-		body = re.ReplaceAllString(body, "$1")
-	}
-	re := regexp.MustCompile(`\{\{([A-Za-z0-9_]+)\|[^}]*\}\}`)
-	for k, v := range params {
-		_ = k
-		_ = v
-	}
+	// "{{name|default}}": the parameter if the model/rule provided it, else the default
+	re := regexp.MustCompile(`\{\{([A-Za-z0-9_]+)\|([^}]*)\}\}`)
 	body = re.ReplaceAllStringFunc(body, func(m string) string {
 		sm := re.FindStringSubmatch(m)
 		if v, ok := params[sm[1]]; ok {
 			return v
 		}
-		return m
+		return sm[2]
 	})
 	return execReplay(root, rule, body, params)
 }
@@ -206,7 +198,7 @@ func execReplay(root string, rule replayRule, body string, params map[string]str
 	defer os.RemoveAll(scratch)
 	testFile := filepath.Join(scratch, "zz_verif_replay_test.go")
 	os.WriteFile(testFile, []byte(body), 0o644)
-	pkgDir := filepath.Join("/repo", rule.Pkg)
+	pkgDir := filepath.Join(repoDir, rule.Pkg)
 	ov := map[string]any{"Replace": map[string]string{filepath.Join(pkgDir, "zz_verif_replay_test.go"): testFile}}
 	ovData, _ := json.Marshal(ov)
 	ovFile := filepath.Join(scratch, "overlay.json")
